@@ -424,10 +424,24 @@ def shrink(case, failing):
 
 
 # ------------------------------------------------------------------ Coq emission
+ZI_HEADER = ["From Coq Require Import Uint63.", "Definition zi (i : int) : Z := Uint63.to_Z i.", "Arguments zi _%uint63.",
+             "Definition zbig (l : list int) : Z := fold_left (fun acc d => Z.shiftl acc 62 + Uint63.to_Z d) l 0."]
+
+
 def cz(n):
-    # Coq parses a 300-digit decimal literal in ~0.4 s but a hexadecimal one in ~5 ms
-    t = hex(abs(n)) if abs(n) >= 2 ** 64 else str(abs(n))
-    return f"(-{t})" if n < 0 else t
+    # Coq interprets a decimal Z literal at ~60 us per digit (a 300-digit one takes 0.4 s); primitive 63-bit
+    # integer literals are parsed natively (20 x faster); larger numbers are given by their base-2^62 digits
+    a = abs(n)
+    if a < 1000:
+        t = str(a)
+    elif a < 2 ** 62:
+        t = f"(zi {a})"
+    else:                       # big-endian digits in base 2^62
+        ds = []
+        while a:
+            ds.append(a & (2 ** 62 - 1)); a >>= 62
+        t = "(zbig [" + "; ".join(str(d) for d in reversed(ds)) + "]%uint63)"
+    return f"(- {t})" if n < 0 else t
 
 
 def model_ops(case):
@@ -486,12 +500,12 @@ def cout(op, o):
 
 
 def ctable(tbl: dict):
-    return C.clist(f"({cz(s)}, {C.clist(str(k) for k in ks)})" for s, ks in sorted(tbl.items()))
+    return C.clist(f"({cz(s)}, map zi {C.clist(str(k) for k in ks)}%uint63)" for s, ks in sorted(tbl.items()))
 
 
 def emit_cases(path: Path, cases, real_pool):
     lines = ["From Coq Require Import ZArith List.", "From PV Require Import Streams.Stream.",
-             "Import ListNotations.", "Open Scope Z_scope.",
+             "Import ListNotations.", "Open Scope Z_scope."] + ZI_HEADER + [
              f"Definition treal : list (Z * list Z) := {ctable({s: real_raws(s) for s in real_pool})}.",
              "Definition cases : list case := ["]
     items = []
@@ -511,7 +525,7 @@ def emit_cases(path: Path, cases, real_pool):
 
 def emit_diag(path: Path, case, outs):
     lines = ["From Coq Require Import ZArith List.", "From PV Require Import Streams.Stream.",
-             "Import ListNotations.", "Open Scope Z_scope.",
+             "Import ListNotations.", "Open Scope Z_scope."] + ZI_HEADER + [
              f"Definition c : case := ({ctable(case_table(case))}, {C.clist(cz(s) for s in case['seeds'])}, "
              f"{model_ops(case)}, {C.clist(cout(op, o) for op, o in zip(case['ops'], outs))}).",
              "Eval vm_compute in (model_outs next_int_fixed_checked c)."]
